@@ -213,6 +213,10 @@ impl Prop for ModelBased {
 
 #[derive(Debug, Clone, Serialize, Deserialize)]
 pub struct ThreadCase {
+    /// no displacement possible: at most 8 threads, one owned key each, nothing else inserted;
+    /// every insert must then be retrievable at once
+    #[serde(default)]
+    pub tight: bool,
     pub tables: u8,
     pub buckets: u8,
     pub scheme: u8,
@@ -237,13 +241,14 @@ impl Prop for RealThreads {
         300
     }
     fn strategy(&self, _: &Ctx) -> BoxedStrategy<ThreadCase> {
-        (0u8..5, 0u8..4, 0u8..6, any::<u8>(), any::<u64>(), 2u8..=32)
-            .prop_flat_map(|(tables, buckets, scheme, universe, key_seed, threads)| {
+        (0u8..5, 0u8..4, 0u8..6, any::<u8>(), any::<u64>(), 2u8..=32, proptest::bool::weighted(0.3))
+            .prop_flat_map(|(tables, buckets, scheme, universe, key_seed, threads, tight)| {
+                let threads = if tight { 2 + threads % 7 } else { threads };
                 prop::collection::vec(
                     prop::collection::vec((any::<u16>(), any::<bool>(), any::<bool>()), 1..120),
                     threads as usize,
                 )
-                .prop_map(move |ops| ThreadCase { tables, buckets, scheme, universe, key_seed, threads, ops })
+                .prop_map(move |ops| ThreadCase { tight, tables, buckets, scheme, universe, key_seed, threads, ops })
             })
             .boxed()
     }
@@ -256,8 +261,10 @@ impl Prop for RealThreads {
         // thread-owned keys: same residues as the shared ones but distinct high parts
         let owned = |t: usize| -> Vec<u64> {
             let lcm = (tables as u64) / gcd(tables as u64, buckets as u64) * buckets as u64;
-            (0..8u64).map(|i| shared[0].wrapping_add(lcm.wrapping_mul(1_000_003 * (t as u64 + 1) + i))).collect()
+            let n = if case.tight { 1 } else { 8u64 };
+            (0..n).map(|i| shared[0].wrapping_add(lcm.wrapping_mul(1_000_003 * (t as u64 + 1) + i))).collect()
         };
+        let tight = case.tight;
         let table = Table::new(tables, buckets);
         let errors: std::sync::Mutex<Vec<String>> = std::sync::Mutex::new(vec![]);
         let start = std::sync::Barrier::new(nthreads);
@@ -272,7 +279,7 @@ impl Prop for RealThreads {
                     for (i, (k, ins, use_shared)) in ops.iter().enumerate() {
                         if *use_shared {
                             let ki = pick_index(*k, shared.len());
-                            if *ins {
+                            if *ins && !tight {
                                 table.insert(shared[ki], payload(ki, i, t as u8));
                             } else if let Some(x) = table.find(shared[ki]) {
                                 // must be a payload some thread stored under exactly this key
@@ -289,6 +296,11 @@ impl Prop for RealThreads {
                                 let e = payload(1000 + ki, i, t as u8);
                                 table.insert(mine[ki], e);
                                 my_latest.insert(ki, e);
+                                if tight && table.find(mine[ki]) != Some(e) {
+                                    // at most 8 keys exist in the whole table: nothing can be displaced
+                                    errors.lock().unwrap().push(format!("with at most 8 keys in the table, key {:#x} is not retrievable directly after its insert (got {:?})", mine[ki], table.find(mine[ki])));
+                                    return;
+                                }
                             } else {
                                 match (table.find(mine[ki]), my_latest.get(&ki)) {
                                     (None, _) => {}
@@ -321,6 +333,9 @@ impl Prop for RealThreads {
         loc.eval();
         loc.evals_n(case.ops.iter().map(|o| o.len() as u64).sum());
         loc.nontrivial(&format!("{:?}", case));
+        if tight {
+            loc.class("tight_no_displacement_possible");
+        }
         loc.class(if nthreads >= 16 { "threads_16_32" } else if nthreads >= 4 { "threads_4_15" } else { "threads_2_3" });
         loc.sample(|| json!({"threads": nthreads, "tables": tables, "buckets": buckets, "ops_per_thread": case.ops.iter().map(|o| o.len()).collect::<Vec<_>>()}));
         Ok(())
@@ -343,8 +358,9 @@ pub fn plan(ctx: &Ctx) -> Plan {
                payload under exactly that key; insert then find returns it; keys vanish only at an insert of a different \
                key, at most one per insert and never with fewer than 8 resident keys; entries() = number of retrievable \
                keys <= tables*buckets*8. Real threads (2-32, barrier start) with thread-owned and shared keys: every find \
-               returns nothing or a payload somebody stored under that key (the owner's latest for owned keys); counts \
-               consistent after the join - stress without schedule control. Non-trivial = distinct op lists with >= 1 \
+               returns nothing or a payload somebody stored under that key (the owner's latest for owned keys); in \
+               'tight' cases (<= 8 threads, one key each, so nothing can be displaced) every insert must be retrievable \
+               at once; counts consistent after the join - stress without schedule control. Non-trivial = distinct op lists with >= 1 \
                displacement and >= 1 same-key overwrite; every multi-thread case.",
         assumptions: &[
             "every table operation is atomic under its sub-table lock, so actor-tagged sequential op lists are the schedule space at operation granularity",
